@@ -238,7 +238,7 @@ class Builder:
             env = dict(head, **{k_: env[k_] for k_ in rest})
         desc = {"SUIT_Envelope_Tagged": env}
         needs_right = sh.get("wsup") == "right" or any(v[2] == "right" for v in sh.get("mem", {}).values())
-        if (sh.get("pad") is not None or needs_right) and creator is not None:
+        if (sh.get("pad") is not None or sh.get("sevpad") is not None or needs_right) and creator is not None:
             desc = self._fixup(desc, sh, creator)
         return desc
 
@@ -271,6 +271,20 @@ class Builder:
             else:
                 # a target can be unreachable (head-width jump); keep the closest
                 pass
+        if sh.get("sevpad") is not None and isinstance(env.get("suit-text"), dict):
+            # the severed text member padded so that its WRAPPED form (the bytes that are hashed) has exactly the target length
+            lang = next(iter(env["suit-text"]))
+            dlen = 1
+            for _ in range(8):
+                env["suit-text"][lang]["suit-text-manifest-description"] = "d" * dlen
+                o2 = Env(creator(strip_right(desc)))
+                got = [len(v.raw) for k_, v in o2.members if k_.mt == 0 and k_.val == 23]
+                if not got:
+                    break
+                diff = sh["sevpad"] - got[0]
+                if diff == 0:
+                    break
+                dlen = max(0, dlen + diff)
         out = Env(creator(strip_right(desc)))
         if env["suit-authentication-wrapper"]["SuitDigest"].get("suit-digest-bytes") == "@right":
             env["suit-authentication-wrapper"]["SuitDigest"]["suit-digest-bytes"] = out.digest.hex()
